@@ -157,6 +157,8 @@ def c15_sequence(rec, rng, kind, start, length, case):
             rec.count("c15:auto-add-refused(not judged)")   # neither the refusal nor its exception type is pinned down
         elif r < 0.55:  # add, explicit channel
             it = _mk_item(rng, kind, n)
+            if shadow and rng.random() < 0.15:
+                it = rng.choice(shadow)[1]       # an item object that is in the block already, bound once more
             taken = bool(used) and rng.random() < 0.4
             hi = 65000 if (kind == "platData" and rng.random() < 0.3) else 60   # unsigned 16-bit field for platform data
             c = rng.choice(used) if taken else next(x for x in (rng.randint(0, hi) for _ in range(999)) if x not in used)
@@ -310,10 +312,15 @@ def c15_sequence(rec, rng, kind, start, length, case):
                     V("bulk-assign:channel-list-and-items-disagree", oerr); return
                 if len(set(ch)) != len(ch):
                     V("bulk-assign:duplicate-channel", f"{ch}"); return
-                old = {id(i): c for c, i in shadow}
+                old = {}
+                for c, i in shadow:            # an item object may be bound more than once (several channels)
+                    old.setdefault(id(i), []).append(c)
                 for c, it in zip(ch, items):
-                    if id(it) in old and old[id(it)] != c:
-                        V("bulk-assign:surviving-item-changed-channel", f"{old[id(it)]} -> {c}"); return
+                    if id(it) in old:
+                        if c in old[id(it)]:
+                            old[id(it)].remove(c)
+                        elif old[id(it)]:
+                            V("bulk-assign:surviving-item-changed-channel", f"{old[id(it)]} -> {c}"); return
                 if err is None and not all(any(it is x for x in items) for it in its):
                     V("bulk-assign:items-missing", "assigned items are not all in the block"); return
                 if kind == "platData":
